@@ -302,6 +302,9 @@ def check_point(ent, c, mode, res, viol):
     """sign / finiteness / accept-reject clauses at one description"""
     spec, layer, constr, module, fn = ent
     dw = constr == 'conv_dw_constraint'
+    g = F(c.get('g', 1))
+    if not dw and g > 1 and (F(c['ic']) % g != 0 or F(c['oc']) % g != 0):
+        return          # groups must divide both channel counts: not a valid layer description
     sup = is_supported(spec, layer, dw, c)
     case = {'kind': 'point', 'entry': list(ent), 'case': jcase(c), 'mode': mode}
     base = 'C16:%s' % spec
@@ -419,7 +422,7 @@ HELPER_KIND = {'FloorSTE': 'ceil', 'DivAndCeilSTE': 'ceil', 'FloorDivideSTE': 'f
 def helper_catalogue():
     """(module, name, kind, is_autograd_function) for every rounding helper of plinio.cost"""
     import torch
-    from translator_names import COST_MODULES       # injected below
+    COST_MODULES = regen._translator().COST_MODULES
     out = []
     for m in COST_MODULES:
         mod = importlib.import_module('plinio.cost.' + m)
@@ -609,17 +612,6 @@ def oracle_dw(chk, ents, budget):
 
 
 # ------------------------------------------------------------------------------- run
-def _inject_translator_names():
-    """make translator constants importable as `translator_names` without touching sys.path order"""
-    import sys
-    import types
-    tr = regen._translator()
-    mod = types.ModuleType('translator_names')
-    mod.COST_MODULES = tr.COST_MODULES
-    sys.modules['translator_names'] = mod
-    return tr
-
-
 def uncovered_generated():
     """every generated `X.val` / `X.backward` must be named by a theorem of Props/C16.lean"""
     import os
@@ -643,7 +635,6 @@ def uncovered_generated():
 def run(chk):
     _setup_worker()
     import torch
-    _inject_translator_names()
     chk.rule = ('layer descriptions on the grids of the property: channels/features 1..130 incl. half-integers, kernels '
                 '{1,3,5,7} (1D/2D), outputs 1..33, bits {0,2,4,8} + unsupported ones, bias on/off, NE16 coefficient '
                 '{1,1/2,1/4,0}, plain numbers / float64 / float32 tensors; every registration of every built-in CostSpec. '
